@@ -5,7 +5,7 @@
     exactly as [TreeGen.grafts] does for AllTopologies (there with NIL lengths).  No proofs. *)
 From Coq Require Import String ZArith QArith Bool Arith List.
 From GT Require Import Base.UTree Model.Reroot Model.Prune Model.Collapse Model.TreeGen Model.NNI Model.Heap Model.HeapEdit Model.HeapEdit2.
-From GT Require Model.LocalEdit.
+From GT Require Model.LocalEdit Model.History.
 Import ListNotations.
 Local Close Scope Q_scope.
 
@@ -57,7 +57,8 @@ Inductive hop : Type :=
 | HRemoveTip (nm : string)                  (* removeTip(the first tip of Tips() named nm) *)
 | HRotate (cs : list nat)                   (* Tree.RotateInternalNodes() with the random choices cs *)
 | HSort                                     (* Tree.SortNeighborsByTips() *)
-| HRmSingle.                                (* Tree.RemoveSingleNodes() *)
+| HRmSingle                                 (* Tree.RemoveSingleNodes() *)
+| HNni (k : nat) (undo : bool).             (* the k-th proposal of NNIRearranger: Apply (, Undo)  (History.ONni) *)
 
 Local Open Scope string_scope.
 Definition err_no_node : string := "The node is not part of the tree".
@@ -113,6 +114,27 @@ Definition nni_apply_at (r : nni) (h : heap) : hres heap :=
   | _, _ => HErr err_nni_heap
   end.
 
+(** the nni object of the proposal [r], with the guard of Rearrange, as in [nni_apply_at] *)
+Definition nni_pre (r : nni) (h : heap) : hres hnni :=
+  do n1 <- walk h None (hroot h) (r_path r);
+  do hn1 <- get_node h n1;
+  match nth_error (hneigh hn1) (r_k r), nth_error (hbr hn1) (r_k r) with
+  | Some n2, Some ec =>
+    do hn2 <- get_node h n2;
+    do edc <- get_edge h ec;
+    if Nat.eqb (length (hneigh hn1)) 3 && Nat.eqb (length (hneigh hn2)) 3 && Nat.eqb (hleft edc) n1 &&
+       opt_nat_eqb (nth_error (hneigh hn2) (r_j r)) (Some n1)
+    then new_nni_heap h n1 n2 (r_cross r)
+    else HErr err_nni_heap
+  | _, _ => HErr err_nni_heap
+  end.
+
+(** Apply, then Undo on the same nni object when [undo] *)
+Definition nni_apply_undo_at (r : nni) (undo : bool) (h : heap) : hres heap :=
+  do q <- nni_pre r h;
+  do h1 <- nni_apply_heap q h;
+  if undo then nni_undo_heap q h1 else HOk h1.
+
 Definition run_hop_tree (o : hop) (t : utree) : res utree :=
   match o with
   | HReroot i => reroot t i
@@ -126,6 +148,7 @@ Definition run_hop_tree (o : hop) (t : utree) : res utree :=
   | HRotate cs => Ok (fst (rotate_all t cs))
   | HSort => Ok (sort_by_tips t)
   | HRmSingle => Ok (LocalEdit.remove_single t)
+  | HNni k undo => History.nni_step k undo t
   end.
 
 Fixpoint run_tree (ops : list hop) (t : utree) : res utree :=
@@ -167,6 +190,15 @@ Definition run_hop_heap (o : hop) (h : heap) : hres heap :=
   | HRotate cs => rotate_internal_nodes_heap cs h
   | HSort => sort_neighbors_by_tips_heap h
   | HRmSingle => remove_single_nodes_heap h
+  | HNni k undo =>
+    match abs h with
+    | Some t =>
+      match History.nni_pick k t with
+      | Some r => nni_apply_undo_at r undo h
+      | None => HOk h
+      end
+    | None => HPanic
+    end
   end.
 
 Fixpoint run_heap (ops : list hop) (h : heap) : hres heap :=
